@@ -74,6 +74,8 @@ def gen_function(classes, contracts, name, extra=None):
             out['groups'].append(dict(prelude=prelude, checks=[(o.uname, o.kind, o.info, p) for o, p in zip(obls, ps)]))
         out['assumptions'] = sorted(eng.used_assumptions)
         out['paths'] = len(eng.paths_ended)
+        out['dropped_prefix'] = getattr(eng, 'dropped_prefix', None)
+        out['helpers_inlined'] = getattr(eng, 'helper_sources', {})
         out['path_list'] = eng.paths_ended
     except Untranslated as e:
         out['error'] = 'UNTRANSLATED: %s' % e
